@@ -398,6 +398,63 @@ FIXED = [
 ]
 
 
+def bind_check(ctx):
+    """bind() / unbind() sequences on real objects against Model/Bind.lean: which handler ends up bound to EVT_USER_ID
+    (an intervention event: one handler) and to EVT_ESTABLISHED (a notification event: a list) on an Association and
+    on an AssociationServer."""
+    from pynetdicom import AE, evt
+    from pynetdicom.association import Association
+    from pynetdicom.events import get_default_handler
+
+    hs = {k: (lambda k: (lambda event: (True, None)))(k) for k in range(1, 6)}
+    ident = {id(f): k for k, f in hs.items()}
+    ident[id(get_default_handler(evt.EVT_USER_ID))] = 0
+    ae = AE()
+    ae.add_supported_context("1.2.840.10008.1.1")
+    srv = ae.start_server(("127.0.0.1", 0), block=False)
+    try:
+        jobs = []
+        for i in range(ctx.n(200, 3000)):
+            n = ctx.rng.choice([1, 2, 3, 3, 4, 6, 9])
+            ops = [[ctx.rng.choice(["bind", "bind", "unbind"]), ctx.rng.randint(1, 4)] for _ in range(n)]
+            if i % 7 == 0:
+                ops = [["bind", 1], ["bind", 2], ["unbind", 1]] + ops[: n - 2]  # swap the handler, then go on
+            jobs.append((ctx.rng.choice(["assoc", "server"]), ctx.rng.choice(["I", "N"]), ops))
+        model = ctx.lean([["bind.run", kind, [[o, h] for o, h in ops]] for _, kind, ops in jobs])
+        for (where, kind, ops), m in zip(jobs, model):
+            obj = Association(AE(), "requestor") if where == "assoc" else srv
+            ev = evt.EVT_USER_ID if kind == "I" else evt.EVT_ESTABLISHED
+            for o, h in ops:
+                (obj.bind if o == "bind" else obj.unbind)(ev, hs[h])
+            got = obj.get_handlers(ev)
+            if kind == "I":
+                real = ident.get(id(got[0]), -1)
+                want = m
+            else:
+                real = [ident.get(id(g[0]), -1) for g in got]
+                want = list(m)
+            case = ["bind", where, kind, ops]
+            ctx.case(case, nontrivial=len(ops) >= 3, kind=f"bind:{where}:{kind}")
+            if real != want:
+                ctx.diff(case, real, want, "bound handler(s) after the bind/unbind sequence")
+            if kind == "I":
+                # the property's concern, stated on the implementation alone: the handler of the last bind() is the bound
+                # one unless it was itself unbound afterwards
+                last = max((i for i, (o, _) in enumerate(ops) if o == "bind"), default=None)
+                if last is not None:
+                    h = ops[last][1]
+                    expect = 0 if ["unbind", h] in ops[last + 1:] else h
+                    if real != expect:
+                        ctx.fail("c13:policy-handler-lost", f"{where}: after {ops} EVT_USER_ID is bound to handler {real}, "
+                                 f"the last bind() was of {h}" + (" (unbound afterwards)" if expect == 0 else ""), case)
+            # leave the server as it was
+            if where == "server":
+                for k in range(1, 6):
+                    obj.unbind(ev, hs[k])
+    finally:
+        srv.shutdown()
+
+
 def run(ctx):
     ctx.rule = (
         "e2e: generated (policy, raw 16-byte calling/called fields, identity item + EVT_USER_ID handler behaviour, "
@@ -428,6 +485,7 @@ def run(ctx):
     for i, e in errors:
         ctx.diff(cases[i][0], e, "no exception", what="harness could not drive the acceptor")
     ctx.extra["workers"] = 8
+    bind_check(ctx)
 
 
 def search(ctx):
@@ -443,6 +501,23 @@ def search(ctx):
 def replay(ctx, case):
     rp.quiet()
     c = case["case"]
+    if c[0] == "bind":
+        from pynetdicom import AE, evt
+        from pynetdicom.association import Association
+        from pynetdicom.events import get_default_handler
+
+        hs = {k: (lambda k: (lambda event: (True, None)))(k) for k in range(1, 6)}
+        ident = {id(f): k for k, f in hs.items()}
+        ident[id(get_default_handler(evt.EVT_USER_ID))] = 0
+        obj = Association(AE(), "requestor")
+        ev = evt.EVT_USER_ID if c[2] == "I" else evt.EVT_ESTABLISHED
+        for o, h in c[3]:
+            (obj.bind if o == "bind" else obj.unbind)(ev, hs[h])
+        got = obj.get_handlers(ev)
+        real = ident.get(id(got[0]), -1) if c[2] == "I" else [ident.get(id(g[0]), -1) for g in got]
+        m = ctx.lean([["bind.run", c[2], c[3]]])[0]
+        print("calls:", c[3], " bound:", real, " model:", m)
+        return 0 if real == (m if c[2] == "I" else list(m)) else 1
     c = [c[0], [_b(x) for x in c[1]], c[2], _b(c[3]), c[4], _b(c[5]), _b(c[6]), c[7], c[8]]
     w = Worker()
     try:
